@@ -34,7 +34,10 @@ TRUSTED = ["modelled, not verified: the coroutines of mpf/devices/ball_device/*.
            "Model/BallLedger.lean is hand-written; validated by the monitor on every run"]
 ASSUMPTIONS = ["one physical exit per device; balls only enter a device when a slot is free (a ball cannot rest in a device "
                "without closing a switch)", "no jam switch, no entrance-switch counter, no mechanical eject, ball search off",
-               "two sources feeding one target can double-fire (known finding D16)"]
+               "two sources feeding one target can double-fire (known finding D16)",
+               "ambiguous physical histories are not generated: a ball falling back later than eject_timeout, a ball arriving "
+               "later than ball_missing_timeout, a ball entering a device while that device's own ejected ball is under way, a "
+               "playfield switch hit by another ball while a ball ejected to the playfield is falling back"]
 
 KNOWN_SIG = "fired-into-full-device:two-sources"      # D16, only for the two_src topology with a ball from the other source
 OUTCOMES = ["ok"] * 7 + ["fallback", "stuck", "late", "astray"]
